@@ -350,6 +350,13 @@ def work(chunk, seed, polmode, k, with_rules):
                 continue          # the root path is C05's subject; keep a fifth as a control
             for pol in policies_for(polmode, li, ri, seed, k):
                 eval_case(col, mk_case(p, li, si, ri, pol))
+            if (with_rules and len(spec["targets"]) == 1 and spec["mergeat"] != "/"
+                    and S.kind(S.get_at(p["left"][li], tuple(spec["targets"][0]))) == S.kind(rt)):
+                # one [rules] entry that names the merge point itself (right-hand root after prefix stripping); only where
+                # target and right-hand document have the same kind, so the mode is a valid one for the ladder consulted
+                for m in c05.RULE_MODES.get(c05.shape_class(rt), ()):
+                    for pol in ({}, c05.CONTRARY):
+                        eval_case(col, mk_case(p, li, si, ri, pol, {spec["mergeat"]: m}))
             if with_rules and len(spec["targets"]) == 1 and isinstance(rt, dict):
                 # one [rules] entry, written in left coordinates below the merge point
                 for cp, cls in c05.container_paths(rt, through_lists=False):
@@ -406,7 +413,7 @@ def run(tier="quick", seed=0, jobs=None):
                  "have `a` ; /zz, /zz/yy, /k/zz missing ; /k/zz below a scalar or an Array, [a=zz] (not creatable)",
         "path kinds": kinds,
         "policies": "quick: default + sampled of the 180; thorough: 12 axis policies on everything, sampled/all 180 on parts",
-        "rules": "one [rules] entry on a right-hand container, written below the merge point, single-target paths",
+        "rules": "one [rules] entry on a right-hand container, written below the merge point or naming the merge point itself, single-target paths",
         "stages": info, "tier": tier, "seed": seed,
     }
     rule = ("merge_with under args.mergeat raises only MergeException/YAMLPathException; the result equals the left document with "
